@@ -115,6 +115,8 @@ Fixpoint pass (d_list : list disc) (claims : json) (ps : list dpath) : res (json
   | [] => Ok (claims, ps, [], false)
   | d :: r =>
       do (c1, ps1, b) <- restore1 129 d "" claims;
+      (* repair F16: a disclosure restored at more than one place (its digest is embedded repeatedly) is an error at once *)
+      if Nat.ltb 1 (List.length ps1) then Err else
       do (c2, ps2, rem, b') <- pass r c1 (ps ++ ps1)%list;
       Ok (c2, ps2, (if b then rem else d :: rem), orb b b')
   end.
